@@ -281,6 +281,14 @@ impl<H: Hasher> MerkleTree<H> {
         index: usize,
         proof: &[H::Digest],
     ) -> Result<(), MerkleTreeError> {
+        // a path consists of at least a leaf and its sibling, and the index must be in the tree
+        if proof.len() < 2 || proof.len() > usize::BITS as usize {
+            return Err(MerkleTreeError::InvalidProof);
+        }
+        if index >> (proof.len() - 1) != 0 {
+            return Err(MerkleTreeError::InvalidProof);
+        }
+
         let r = index & 1;
         let mut v = H::merge(&[proof[r], proof[1 - r]]);
 
